@@ -23,13 +23,13 @@ def run(ck):
 
     def in_net(f):
         return f.file.endswith("/common/net.cc") or f.file.endswith("/pistache/net.h")
-    CONVS = ("strtol", "strtoul", "strtoll", "std::stol", "std::stoi", "std::stoul", "atoi", "atol", "std::strtol", "sscanf")
+    CONVS = ("strtol", "strtoul", "strtoll", "std::stol", "std::stoi", "std::stoul", "atoi", "atol", "std::strtol", "sscanf", "std::from_chars")
     # every function of the address/port parser that narrows a converted number to a port (Port(const std::string&), Address::init or
     # the helper it delegates to)
     targets = [f for f in prog.library_funcs() if in_net(f) and
                [e for e in f.events("cast") if (e.get("to") or "").replace("std::", "") in ("uint16_t", "unsigned short")] and
                [e for e in f.calls(lambda e: (e.get("callee") or "") in CONVS)]]
-    ck.require(len(targets) >= 2, "functions that convert text to a port number: %d found" % len(targets))
+    ck.require(len(targets) >= 1, "functions that convert text to a port number: %d found" % len(targets))
     for f in targets:
         casts = [e for e in f.events("cast") if (e.get("to") or "").replace("std::", "") in ("uint16_t", "unsigned short")]
         convs = [e for e in f.calls(lambda e: (e.get("callee") or "") in CONVS)]
@@ -39,10 +39,17 @@ def run(ck):
             conv_ok = bool(d) and (d[0].get("icall") in ("strtol", "std::strtol"))
             call = [e for e in convs if e.get("callee") in ("strtol", "std::strtol")]
             endp = None
+            fc = [e for e in convs if strip_tmpl(e.get("callee") or "") == "std::from_chars" and len(e.get("args", [])) >= 3 and e["args"][2].get("v") == src]
             if call:
                 a1 = call[0]["args"][1]
                 endp = ((a1.get("t") or "").lstrip("&")) if (a1.get("t") or "").startswith("&") else None
                 conv_ok = conv_ok and endp is not None
+            elif fc:
+                # std::from_chars: the value is an out-parameter; failure (including overflow, which leaves the value untouched) is
+                # reported only through the result's `ec`, the end of the conversion through its `ptr`
+                conv_ok = True
+                rv_ = [x["var"] for x in f.events("decl") if strip_tmpl(x.get("icall") or "") == "std::from_chars" and x.get("var")]
+                endp = rv_[0] if rv_ else None
             # bail-out
             guard_ok = False
             detail = "no dominating bail-out"
@@ -70,6 +77,13 @@ def run(ck):
             has_val = src is not None and ("v:" + src) in chain_refs
             guard_ok = has_end and has_min and has_max and has_val
             detail = "conversion by strtol with end pointer: %s; bail-out tests *%s: %s, Port::min(): %s, Port::max(): %s" % (conv_ok, endp, has_end, has_min, has_max)
+            if fc:
+                has_ec = "f:std::from_chars_result::ec" in chain_refs
+                has_ptr = "f:std::from_chars_result::ptr" in chain_refs
+                unsigned_ = bool(d) and "unsigned" in (d[0].get("ctype") or d[0].get("type") or "")
+                guard_ok = has_ec and has_ptr and has_max and has_val and (has_min or unsigned_)
+                detail = "conversion by std::from_chars: bail-out tests result.ec: %s, result.ptr: %s, Port::max(): %s%s" % (
+                    has_ec, has_ptr, has_max, "" if has_ec else " — an out-of-range text is reported only through ec; the value keeps its initial value and passes the range test")
             ck.ob("C19-R1", "%s/range-checked-narrowing" % f.base.replace(P, ""), conv_ok and guard_ok, c.loc, f, detail)
 
     # ---------------- R2 ----------------
@@ -179,3 +193,18 @@ def run(ck):
               "size argument `%s` does not give inet_ntop the %d bytes the longest literal needs (destination %s): long addresses fail to print" % (szt, need, dst_ty))
     others = [e for f in prog.funcs.values() for e in f.calls(lambda e: (e.get("callee") or "") in ("inet_addr", "inet_aton", "inet_ntoa")) if in_scope(f)]
     ck.ob("C19-R3", "no-legacy-converters", not others, others[0].loc if others else ai.loc, others[0].func if others else ai, "inet_addr/inet_aton/inet_ntoa are not used", nontrivial=False)
+
+    # ---------------- R2 (text constructors delegate entirely to init) ----------------
+    AD = P + "Address::"
+    ini = lib.single(prog, AD + "init")
+    for fn_ in prog.library_funcs():
+        if not in_net(fn_):
+            continue
+        for e in fn_.events(("assign", "call")):
+            tgt = (e.get("lhs") or {}).get("f") if e["k"] == "assign" else ((e.get("recv") or {}).get("f") if e.get("op") == "=" else None)
+            if strip_tmpl(tgt or "") in (AD + "port_", AD + "ip_") and ((e.get("lhs") or e.get("recv") or {}).get("b") in ("this", None)):
+                ok_ = lib.only_reached_from(prog, fn_, {AD + "init"})
+                ck.ob("C19-R2", "Address::%s written in %s" % (strip_tmpl(tgt).rsplit("::", 1)[1], prog.owner(fn_).base.replace(P, "")), ok_, e.loc, fn_,
+                      "set by the text parser (init)" if ok_ else
+                      "%s overwrites what Address::init parsed from the text: a port or host that the text itself carries is accepted and then "
+                      "silently replaced instead of being rejected" % prog.owner(fn_).base.replace(P, ""))
